@@ -3,7 +3,8 @@
 spec:      spec/DebFile.tla  (statement level: WellFormed / packed maps; code level: DOpen, DTgz,
            DNorm, DHas, DGet, DScripts, DMd5, DCtl transcribed from debian/debfile.py)
 design:    closed configurations MC_DebFile_sets (all 2^15 subsets of the 15-name universe),
-           MC_DebFile_orders[_quick] (all injective member sequences of length <= 5 / <= 3),
+           MC_DebFile_orders[_quick] (all injective member sequences of length <= 4 / <= 3), MC_DebFile_orders_mid
+           (length <= 5 over a 9-name sub-universe),
            MC_DebFile_content[_emit] (every content: 32 script subsets x data maps x md5 subsets),
            MC_DebFile_matrix (5 x 5 compressions x contents), MC_DebFile_nodecomp; invariants
            AcceptIffWellFormed, PartsAreCandidates, OrderIrrelevant, SpellingInvariant, ContentExact,
@@ -41,7 +42,7 @@ import c07_hist as H
 
 MANIFEST = dict(
     technique="TLA+ specs (DebFile: statement-level WellFormed/packed maps + transcription of DebFile.__init__/DebPart; DebFileCache: query histories over two open packages with explicit caches) model-checked by TLC over all member-name subsets, bounded member orders and all small contents; every configuration built as a real .deb and opened by DebFile; recorded random packages validated by TLC (TraceDebFile)",
-    text="TLC enumerates every subset of a 15-name member universe (debian-binary, control.tar and data.tar with none/gz/bz2/xz/lzma, four foreign names) and every injective member sequence up to length 3 (quick) / 5 (thorough) and checks accept <=> has debian-binary and exactly one control and one data candidate, independence of member order, equality of the answers for 'n', './n', '/n' and that every query returns the packed blob, for every subset of the five maintainer scripts and every small data/md5sums map. Each CASE line is built as a real package and DebFile must answer Ok / DebError as TLC says (any other exception type is a violation); each PROBE line is concretised (names with spaces, non-ASCII, nested directories; binary, empty, NUL contents) and the complete table of has_file / in / get_content / get_file / [] answers, scripts(), md5sums(), debcontrol() is compared; random packages with random orders, foreign members and defects are recorded and validated by TLC. A history layer (DebFileCache) models two packages open at once with the caches an implementation might keep, caller-side mutation of returned dictionaries and rewrite + re-open of a path, and TLC checks that every answer in every history equals the stateless one; accordingly all queries are issued repeatedly, shuffled and interleaved between parts, spellings, access paths and two simultaneously open packages with equal file names, in replay and in recorded sessions.",
+    text="TLC enumerates every subset of a 15-name member universe (debian-binary, control.tar and data.tar with none/gz/bz2/xz/lzma, four foreign names) and every injective member sequence up to length 3 (quick) / 4, and 5 over a 9-name sub-universe (thorough) and checks accept <=> has debian-binary and exactly one control and one data candidate, independence of member order, equality of the answers for 'n', './n', '/n' and that every query returns the packed blob, for every subset of the five maintainer scripts and every small data/md5sums map. Each CASE line is built as a real package and DebFile must answer Ok / DebError as TLC says (any other exception type is a violation); each PROBE line is concretised (names with spaces, non-ASCII, nested directories; binary, empty, NUL contents) and the complete table of has_file / in / get_content / get_file / [] answers, scripts(), md5sums(), debcontrol() is compared; random packages with random orders, foreign members and defects are recorded and validated by TLC. A history layer (DebFileCache) models two packages open at once with the caches an implementation might keep, caller-side mutation of returned dictionaries and rewrite + re-open of a path, and TLC checks that every answer in every history equals the stateless one; accordingly all queries are issued repeatedly, shuffled and interleaved between parts, spellings, access paths and two simultaneously open packages with equal file names, in replay and in recorded sessions.",
     note="Payload fidelity through tarfile/compressors is sampled (seeded), structure is enumerated. Member lists whose verdict hinges on zst support (not in PART_EXTS of this tree) are unspecified: executed, either verdict accepted. Which exception reports an absent file in get_content (KeyError today) and the key type of md5sums() are diagnostic. Trusted: TLC, tarfile/gzip/bz2/lzma/hashlib, the ar writer, dpkg-deb and ar where present.",
     design="5 (C07)")
 
@@ -524,7 +525,7 @@ def _work_content(args):
         qn = sorted(pr["probe"]["has"]["data"]["plain"])
         # size dimension (notes/SIZE_STRESS.md): some contents get big incompressible blobs, 30 / 100+
         # padding members and names around the tar limits; fewer queries, both opening modes
-        stress = 2 if i % 197 == 13 else 1 if i % 23 == 5 else 0
+        stress = 0 if k else 2 if i % 197 == 13 else 1 if i % 23 == 5 else 0
         conc = B.Conc(rnd, pr["pkg"], qn, canonical=(k == 0 and i % 7 == 0 and not stress), stress=stress)
         style = "dpkg" if any(len(x) > 15 for x in mem) or rnd.random() < 0.8 else "gnu"
         how = "filename" if rnd.random() < (0.4 if stress else 0.05) else "fileobj"
@@ -624,7 +625,7 @@ def run(ctx):
     W = int(os.environ.get("VERIF_TLC_WORKERS") or (4 if quick else 8))
     nproc = int(os.environ.get("VERIF_REPLAY_PROCS") or (4 if quick else 8))
     ctx.assumptions += [
-        "member-name universe of the model: debian-binary, control.tar/data.tar x {none,gz,bz2,xz,lzma}, _gpgorigin, control.tar.zst, data.tar.gz.bak, control.tar.Z; all subsets, all orders up to length %d" % (3 if quick else 5),
+        "member-name universe of the model: debian-binary, control.tar/data.tar x {none,gz,bz2,xz,lzma}, _gpgorigin, control.tar.zst, data.tar.gz.bak, control.tar.Z; all subsets, all orders up to length %d%s" % (3 if quick else 4, "" if quick else ", up to length 5 over a 9-name sub-universe"),
         "packages are built the way dpkg-deb builds them (D5): tar members './name', distinct ar member names; file names have no leading/trailing blank, no newline, do not start with '/' or './'",
         "member lists whose verdict depends on zst being a recognised extension are unspecified (this tree: not in PART_EXTS)",
         "payload (names, bytes, control values) is sampled with the run's seed; the exception type for get_content of an absent file and the key type of md5sums() are diagnostic",
@@ -664,6 +665,7 @@ def _run(ctx, quick, rng, W, nproc, procs, pool, timeout, timing, lap):
             "sets": tlc("MC_DebFile_sets.cfg"),
             "orders": tlc("MC_DebFile_orders_quick.cfg" if quick else "MC_DebFile_orders.cfg")}
     if not quick:
+        jobs["orders_mid"] = tlc("MC_DebFile_orders_mid.cfg")
         jobs["matrix"] = tlc("MC_DebFile_matrix.cfg")
         jobs["nodecomp"] = tlc("MC_DebFile_nodecomp.cfg", 2, True)
     jobs["hist"] = tlc("MC_DebFileCache.cfg", 2, True, "DebFileCache")
@@ -681,12 +683,12 @@ def _run(ctx, quick, rng, W, nproc, procs, pool, timeout, timing, lap):
         return out
 
     # ---- code -> spec, recording (needs no TLC): random packages opened by the real code
-    ntr = 250 if quick else 4000
+    ntr = 250 if quick else 2500
     tseeds = [rng.getrandbits(48) for _ in range(ntr)]
     trace_jobs = [procs.apply_async(_work_traces, ((ch, ctx.work),)) for ch in chunks(tseeds, nproc)]
-    sseeds = [rng.getrandbits(48) for _ in range(80 if quick else 1200)]
+    sseeds = [rng.getrandbits(48) for _ in range(80 if quick else 800)]
     session_jobs = [procs.apply_async(_work_sessions, ((ch, ctx.work),)) for ch in chunks(sseeds, nproc)]
-    hseeds = [rng.getrandbits(48) for _ in range(60 if quick else 800)]
+    hseeds = [rng.getrandbits(48) for _ in range(60 if quick else 500)]
 
     pending = []        # (label, async result)
     n_pkg = 0
@@ -722,7 +724,7 @@ def _run(ctx, quick, rng, W, nproc, procs, pool, timeout, timing, lap):
     per_why = {}
     set_cases = None
     verdicts = {}
-    for name in ("sets", "orders"):
+    for name in ("sets", "orders") if quick else ("sets", "orders", "orders_mid"):
         cases = sorted(result(name, "CASE"), key=lambda c: c["mem"])
         lap("wait_tlc")
         if not cases:
@@ -838,8 +840,8 @@ def _run(ctx, quick, rng, W, nproc, procs, pool, timeout, timing, lap):
         for i in range(per_label.get(label, 0)):
             ctx.case_seen((label, i), True)
     ctx.extra["packages_per_configuration"] = per_label
-    for label in ("hist", "sets", "orders", "content", "matrix", "session", "trace"):
-        for case, msg in found.get(label, [])[:1 if label in ("sets", "orders", "matrix") else 2]:
+    for label in ("hist", "sets", "orders", "orders_mid", "content", "matrix", "session", "trace"):
+        for case, msg in found.get(label, [])[:1 if label in ("sets", "orders", "orders_mid", "matrix") else 2]:
             ctx.violation(case, msg)
     if found:
         ctx.extra["violating_cases"] = {k: len(v) for k, v in found.items()}
@@ -868,7 +870,8 @@ def _run(ctx, quick, rng, W, nproc, procs, pool, timeout, timing, lap):
     ctx.extra["trace_events_per_action"] = ev
     ctx.extra["model_constants"] = {
         "Universe": "debian-binary, control.tar[.gz|.bz2|.xz|.lzma], data.tar[...], _gpgorigin, control.tar.zst, data.tar.gz.bak, control.tar.Z (15 names)",
-        "sets": "all 2^15 subsets", "orders": "injective sequences of length <= %d" % (3 if quick else 5),
+        "sets": "all 2^15 subsets", "orders": "injective sequences of length <= %d" % (3 if quick else 4),
+        "orders_mid": None if quick else "injective sequences of length <= 5 over 9 names",
         "content": "32 script subsets x partial maps {f1,f2%s} -> {11,12} x md5 subsets" % ("" if quick else ",f3"),
         "matrix": None if quick else "25 compression pairs x 32 script subsets x {f1} -> {11,12} x md5 subsets",
         "spellings": SPELLINGS, "trace packages": "<= 9 files, 18 foreign member names, random order"}
